@@ -317,18 +317,39 @@ def record_mult(np, StateManager, Resampler, sizes, blobs, n, seed, w):
     sm, N = build_state(np, StateManager, sizes, blobs)
     w = np.asarray(w, dtype=float)
     rs = Resampler(state=sm, n_particles=n, resample="mult", clusterer=None, clustering=False, have_blobs=blobs)
+    if seed % 2:
+        # the SAME Resampler object has already been used at this temperature with other weights (the sampler calls it once per
+        # iteration, several times at beta = 1): the observed call must draw afresh from the weights it is handed
+        try:
+            np.random.seed(seed ^ 0x5A5A)
+            rs.run(w[::-1].copy())
+        except Exception:
+            pass
     np.random.seed(seed)
     snap = np.random.get_state()
+    # the lookup can only be validated against the cdf/searchsorted model if the draw really is ONE numpy.random.choice call
+    # (another exact construction of n iid draws - counts + shuffle, inverse-cdf on sorted uniforms, ... - may by coincidence
+    # consume the same amount of the stream)
+    real_choice = np.random.choice
+    choice_calls = []
+
+    def spy_choice(*a_, **k_):
+        choice_calls.append(1)
+        return real_choice(*a_, **k_)
+
+    np.random.choice = spy_choice
     try:
         rs.run(w.copy())
         err = False
     except Exception as ex:
         err, exc = True, repr(ex)
+    finally:
+        np.random.choice = real_choice
     post = np.random.get_state()
     regen = np.random.RandomState()
     regen.set_state(snap)
     r = regen.random_sample(n)  # the uniforms the draw consumed, regenerated from the snapshot
-    consumed_as_modelled = same_rng_state(regen.get_state(), post)
+    consumed_as_modelled = same_rng_state(regen.get_state(), post) and len(choice_calls) == 1
     cdf = np.cumsum(w)
     cdf = cdf / cdf[-1]
     rk = ranks_of(list(r) + list(cdf))
@@ -346,6 +367,39 @@ def record_mult(np, StateManager, Resampler, sizes, blobs, n, seed, w):
                     lookup=bool(consumed_as_modelled), out=got, err=False, rows=tuple(rows.values()))
         info["got"] = list(got)
     return case, info, err
+
+
+def mult_frequency_monitor(ck, np, StateManager, Resampler, quick):
+    reps = 3000 if quick else 20000
+    worst = 0.0
+    cases = 0
+    rng = np.random.RandomState(60606)
+    for N, n in ((3, 4), (5, 8), (8, 3)):
+        w = rng.dirichlet(np.ones(N))
+        if N == 5:
+            w[1] = 0.0
+            w /= w.sum()
+        sm, NN = build_state(np, StateManager, [N], False)
+        counts = np.zeros(N)
+        for r in range(reps):
+            rs = Resampler(state=sm, n_particles=n, resample="mult", clusterer=None, clustering=False, have_blobs=False)
+            sm2, _ = build_state(np, StateManager, [N], False)
+            rs.state = sm2
+            np.random.seed(1000003 * (cases + 1) + r)
+            rs.run(w.copy())
+            got = decode_rows(np, sm2.get_current(), False)["u0"]
+            counts += np.bincount(np.array(got) - 1, minlength=N)
+        mean = counts / reps
+        se = np.sqrt(n * w * (1 - w) / reps)
+        with np.errstate(all="ignore"):
+            z = np.where(se > 0, np.abs(mean - n * w) / se, np.where(mean == n * w, 0.0, np.inf))
+        worst = max(worst, float(np.max(z)))
+        cases += 1
+        if np.max(z) > 6.5:
+            j = int(np.argmax(z))
+            ck.violation("mult:frequency", f"Resampler.run(resample='mult'): over {reps} seeded draws of n={n} from w={w.tolist()} index {j} was copied "
+                         f"{mean[j]:.4f} times on average, n*w = {n * w[j]:.4f} ({z[j]:.1f} standard errors)", {"kind": "mult-frequency", "N": N, "n": n, "w": w.tolist()})
+    return {"weight_vectors": cases, "seeded_draws_each": reps, "worst_standard_errors": round(worst, 2)}
 
 
 # --------------------------------------------------------------------------- main
@@ -811,9 +865,14 @@ def main():
         key = "mult:" + "+".join(sorted(fails))
         ck.violation(key, f"Resampler.run(resample='mult') n={info['n']} w={info['w']} seed={info['seed']} -> "
                           f"{info['got']} fails {sorted(fails)}", dict(info, fails=sorted(fails)))
+    mult_fallback = None
     if lookup_unverifiable and not ck.violations:
-        raise BindingLost(f"{lookup_unverifiable} multinomial draws did not consume the global stream as "
-                          "numpy.random.choice(p=weights) does: the inverse-CDF lookup cannot be validated")
+        # The multinomial step is not one numpy.random.choice(p=weights) call: the cdf/searchsorted model does not describe this
+        # implementation, so the specification's lookup clause cannot be bound to it (the structural clauses above still are).
+        # Fallback OUTSIDE the model (labelled as such in the evidence): a seeded frequency monitor of "expected copies = n w_i";
+        # only a gross bias (> 6.5 standard errors on a fixed set of seeds, deterministic for a given implementation) is reported.
+        mult_fallback = mult_frequency_monitor(ck, np, StateManager, Resampler, quick)
+        mult_fallback["draws_without_verifiable_lookup"] = lookup_unverifiable
 
     ck.assumptions += [
         "numpy float64 arithmetic is IEEE-754; breakpoints are replayed only with dyadic weights/offsets (exact)",
@@ -843,6 +902,7 @@ def main():
         "code_follows_impl_variant_there": follows_impl_where_differs,
         "skipped_nondyadic_breakpoints": skipped_breakpoints_nondyadic,
         "ieee_posterior_resampler_cases": len(struct_cases),
+        "monitor:multinomial_frequency_fallback(outside the model; only when the lookup cannot be bound)": mult_fallback,
         "long_weight_vectors_judged_by_validated_transliteration": large_done["long_vectors"],
         "transliteration_validated_against_TLC_states": transliteration_checked,
         "vectors_outside_the_no_renormalisation_band": large_done["renormalised_vectors"],
